@@ -182,8 +182,10 @@ pub enum Outcome {
     Rows(RowsOut),
     Error { phase: Phase, msg: String },
     Panic { loc: String, msg: String },
-    /// no enabled actor while the client has not finished / step horizon
+    /// no enabled actor while the client has not finished / step horizon / wall limit
     Hang { detail: String },
+    /// the statement killed the process (stack overflow, allocation failure, abort)
+    Abort { detail: String },
 }
 
 impl Outcome {
@@ -194,6 +196,7 @@ impl Outcome {
             Outcome::Error { phase: Phase::Exec, .. } => "error-exec",
             Outcome::Panic { .. } => "panic",
             Outcome::Hang { .. } => "hang",
+            Outcome::Abort { .. } => "abort",
         }
     }
     pub fn is_rows(&self) -> bool {
@@ -223,6 +226,7 @@ impl Outcome {
                 format!("PANIC at {loc}: {}", msg.lines().next().unwrap_or(""))
             }
             Outcome::Hang { detail } => format!("HANG: {detail}"),
+            Outcome::Abort { detail } => format!("ABORT: {detail}"),
         }
     }
     pub fn not_implemented(&self) -> bool {
@@ -414,6 +418,17 @@ impl Driver {
 
     /// Execute one statement under the given scheduler.
     pub fn run(&mut self, sess: usize, sql: &str, sched: &mut dyn Sched) -> RunResult {
+        if let Some(kind) = crate::guard::skipped(sql) {
+            let outcome = if kind == "abort" { Outcome::Abort { detail: "the statement killed the process in an earlier attempt of this run (recorded by the supervisor)".into() } } else { Outcome::Hang { detail: "wall limit exceeded inside a single poll in an earlier attempt of this run (recorded by the watchdog)".into() } };
+            return RunResult { outcome, stats: RunStats::default() };
+        }
+        crate::guard::enter(sql);
+        let r = self.run_inner(sess, sql, sched);
+        crate::guard::leave();
+        r
+    }
+
+    fn run_inner(&mut self, sess: usize, sql: &str, sched: &mut dyn Sched) -> RunResult {
         self.queries_run += 1;
         self.exec.spawned.lock().clear();
         let phase = Arc::new(AtomicUsize::new(0));
